@@ -38,6 +38,9 @@ class Ctx:
         self.spec_dir = os.path.join(VERIF, "specs", pid)
         self.out = os.path.join(VERIF, "out", pid)
         os.makedirs(self.out, exist_ok=True)
+        for f in os.listdir(self.out):  # replay files belong to one run
+            if f.endswith(".replay.json"):
+                os.remove(os.path.join(self.out, f))
         self.t0 = time.time()
         self.obligations = []
         self.functions = []        # descriptors of functions under contract
